@@ -140,6 +140,15 @@ class Prov:
                 return (max(a[0], b[0]), max(a[1], b[1]), (a[2] | b[2]))
             if sh == "count_ones":
                 return (0, 64, {"const"})
+            if sh in ("from", "into") and t[2]:
+                # a lossless widening: the value keeps the range of its source type
+                mm = re.search(r"From<(u8|u16|u32|u64|usize|i8|i16|i32|i64)> for (\w+)>", nm)
+                src_ty = mm.group(1) if mm else ty
+                lo, hi, tags = self.of(t[2][0], src_ty, depth + 1)
+                r = ty_range(src_ty)
+                if r and (lo < r[0] or hi > r[1]):
+                    lo, hi = max(lo, r[0]), min(hi, r[1])
+                return (lo, hi, tags)
             if sh in ("branch", "unwrap", "from", "into", "clone", "to_owned", "unwrap_or", "unwrap_or_default", "ok_or", "expect", "deref", "unwrap_or_else"):
                 if t[2]:
                     return self.of(t[2][0], ty, depth + 1)
@@ -554,6 +563,61 @@ def index_guarded(b, bb, base, idx, cd, P):
         if st[0] == "const":
             need = st[1]
     if need is None:
+        # symbolic index / range: a dominating guard compares the (end) index with the slice's own length
+        from flow import dom_guards, cond_truth
+
+        def is_len_of_base(t_):
+            t_ = strip_refs(t_)
+            while t_[0] == "cast":
+                t_ = strip_refs(t_[1])
+            return (t_[0] in ("call", "un") and (t_[1].rsplit("::", 1)[-1] == "len" or t_[1] == "PtrMetadata") and any(y == base for y in walk(t_)))
+
+        def unwiden(t_):
+            """strip casts / From conversions that cannot lose bits"""
+            while True:
+                t_ = strip_refs(t_)
+                if t_[0] == "cast" and BITS.get(t_[2], 0) >= BITS.get(t_[3], 65) and str(t_[2])[0] == str(t_[3])[0:1]:
+                    t_ = t_[1]
+                elif t_[0] == "cast" and t_[2] in ("usize", "u64") and t_[3] in ("usize", "u64", "u32", "u16", "u8"):
+                    t_ = t_[1]
+                elif t_[0] == "call" and t_[1].endswith("::from") and len(t_[2]) == 1 and "convert::From<u" in t_[1]:
+                    t_ = t_[2][0]
+                else:
+                    return norm(t_)
+
+        def bounded(x, strict):
+            """a dominating guard establishes x < len (strict) or x <= len"""
+            nx = unwiden(x)
+            for (a_, s_, c_) in dom_guards(b, bb, cd):
+                ct = cond_truth(c_)
+                if not ct or ct[0][0] != "bin" or ct[0][1] not in ("Lt", "Le", "Gt", "Ge"):
+                    continue
+                op, l_, r_ = ct[0][1], ct[0][2], ct[0][3]
+                if not ct[1]:
+                    op = {"Lt": "Ge", "Le": "Gt", "Gt": "Le", "Ge": "Lt"}[op]
+                if is_len_of_base(l_) and unwiden(r_) == nx:      # len OP x  ->  x OP' len
+                    op = {"Lt": "Gt", "Le": "Ge", "Gt": "Lt", "Ge": "Le"}[op]
+                elif not (is_len_of_base(r_) and unwiden(l_) == nx):
+                    continue
+                if op == "Lt" or (op == "Le" and not strict):
+                    return True
+            return False
+        if idx[0] == "agg" and idx[2] and idx[2].startswith("std::ops::Range") and idx[4]:
+            kind = idx[2].rsplit("::", 1)[-1]
+            if kind == "Range" and len(idx[4]) == 2:
+                st, en = idx[4]
+                ust = unwiden(st)
+                ordered = (st[0] == "const" and st[1] == 0) or any(
+                    (x[0] == "call" and x[1].rsplit("::", 1)[-1] in ("checked_add", "saturating_add") and x[2] and unwiden(x[2][0]) == ust) or
+                    (x[0] == "bin" and x[1].startswith("Add") and (unwiden(x[2]) == ust or unwiden(x[3]) == ust)) for x in walk(en))
+                return ordered and bounded(en, False)
+            if kind == "RangeTo" and len(idx[4]) == 1:
+                return bounded(idx[4][0], False)
+            if kind == "RangeFrom" and len(idx[4]) == 1:
+                return bounded(idx[4][0], False)
+            return False
+        if idx[0] != "agg":
+            return bounded(idx, True)
         return False
     for bi in range(len(b.blocks)):
         if not b.dominates(bi, bb) or bi == bb:
